@@ -1,6 +1,7 @@
 package main
 
 import (
+	"strings"
 	"flag"
 	"fmt"
 	"os"
@@ -77,6 +78,7 @@ func cmdRun(args []string) {
 	cpuprof := fs.String("cpuprofile", "", "")
 	agroup := fs.Int("agroup", 1, "assertions per solver query")
 	budget := fs.Int("budget", 0, "wall-clock budget per harness in seconds (0 = none)")
+	covOut := fs.String("cov", "", "write the basic-block coverage of the repository's functions (union over the harnesses run) here")
 	fs.Parse(args)
 	p := loadProg(*repo, *harness)
 	if *cpuprof != "" {
@@ -131,6 +133,24 @@ func cmdRun(args []string) {
 		}
 	}
 	pprof.StopCPUProfile()
+	if *covOut != "" {
+		var sb strings.Builder
+		tot, miss, fnNever := 0, 0, 0
+		for _, fc := range p.BlockCoverage() {
+			tot += fc.Total
+			miss += len(fc.Missed)
+			if !fc.Entered {
+				fnNever++
+				fmt.Fprintf(&sb, "NEVER  %s (%d blocks)\n", fc.Name, fc.Total)
+				continue
+			}
+			if len(fc.Missed) > 0 {
+				fmt.Fprintf(&sb, "PART   %s %d/%d missed: %s\n", fc.Name, len(fc.Missed), fc.Total, strings.Join(fc.Missed, " "))
+			}
+		}
+		fmt.Fprintf(&sb, "TOTAL blocks=%d missed=%d functions-never-entered=%d\n", tot, miss, fnNever)
+		os.WriteFile(*covOut, []byte(sb.String()), 0o644)
+	}
 	os.Exit(exit)
 }
 
